@@ -204,7 +204,7 @@ def check_cases(ctx, cases):
 
 
 def run(ctx):
-    check_cases(ctx, gen_cases(ctx))
+    check_cases(ctx, cw.corpus_cases(PROP) + gen_cases(ctx))
 
 
 def replay(ctx, obj):
